@@ -314,3 +314,79 @@ package metadatapart
 //@     needs before checksumutils.CalculateChecksumsStreaming(_, $rd, _) -> ($size, $cs, $e)
 //@     where $e == nil && $sz == *$size && $c == $cs && $id == *newPartId
 //@ effect[C08:replaced-parts-released] every returns() if err == nil needs before mbs.deleteUnreferencedParts(_, _, $u)
+
+// C08. The only part files an operation removes are the ones the metadata store (which holds the reference counts)
+// reported as no longer referenced by anything, in this very transaction: every operation hands
+// deleteUnreferencedParts exactly the UnreferencedParts of the metadata-store call it just made, and
+// deleteUnreferencedParts deletes exactly those parts, each from the store its row names, inside the transaction.
+//@ func (*metadataPartStorage).deleteUnreferencedParts
+//@ mode effects
+//@ effect[C08:deletes-only-the-parts-it-was-handed] every partstore.PartStore($s).DeletePart(_, $t, $id) where $id == part.Id && $t == tx
+//@ effect[C08:deletes-from-the-store-the-row-names] every mbs.partStores.ByName($n) where specSameOpt($n, part.StoreName)
+
+//@ func (*metadataPartStorage).PutObject$1
+//@ mode effects
+//@ trust nonnil metadatastore.MetadataStore.PutObject
+//@ havoc deleteUnreferencedParts
+//@ effect[C08:put-deletes-only-what-the-registry-released] every mbs.deleteUnreferencedParts(_, _, $ps)
+//@     needs before mbs.metadataStore.PutObject(__) -> ($res, $e) where $e == nil && $res != nil && same($ps, $res.UnreferencedParts)
+
+//@ func (*metadataPartStorage).CopyObject$1
+//@ mode effects
+//@ trust nonnil metadatastore.MetadataStore.PutObject
+//@ havoc deleteUnreferencedParts
+//@ effect[C08:copy-deletes-only-what-the-registry-released] every mbs.deleteUnreferencedParts(_, _, $ps)
+//@     needs before metadatastore.MetadataStore($m).PutObject(__) -> ($res, $e) where $e == nil && $res != nil && same($ps, $res.UnreferencedParts)
+
+//@ func (*metadataPartStorage).AppendObject$1
+//@ mode effects
+//@ trust nonnil metadatastore.MetadataStore.AppendObject
+//@ havoc deleteUnreferencedParts
+//@ effect[C08:append-deletes-only-what-the-registry-released] every mbs.deleteUnreferencedParts(_, _, $ps)
+//@     needs before mbs.metadataStore.AppendObject(__) -> ($res, $e) where $e == nil && $res != nil && same($ps, $res.UnreferencedParts)
+
+//@ func (*metadataPartStorage).DeleteObject$1
+//@ mode effects
+//@ trust nonnil metadatastore.MetadataStore.DeleteObject
+//@ havoc deleteUnreferencedParts
+//@ effect[C08:delete-deletes-only-what-the-registry-released] every mbs.deleteUnreferencedParts(_, _, $ps)
+//@     needs before mbs.metadataStore.DeleteObject(__) -> ($res, $e) where $e == nil && $res != nil && same($ps, $res.UnreferencedParts)
+//@ effect[C08:delete-deletes-no-part-behind-the-registrys-back] never partstore.PartStore($s).DeletePart(__)
+
+//@ func (*metadataPartStorage).DeleteObjects$1
+//@ mode effects
+//@ trust nonnil metadatastore.MetadataStore.DeleteObject
+//@ havoc deleteUnreferencedParts
+//@ effect[C08:bulk-delete-deletes-only-what-the-registry-released] every mbs.deleteUnreferencedParts(_, _, $ps)
+//@     needs before mbs.metadataStore.DeleteObject(__) -> ($res, $e) where $e == nil && $res != nil && same($ps, $res.UnreferencedParts)
+//@ effect[C08:bulk-delete-deletes-no-part-behind-the-registrys-back] never partstore.PartStore($s).DeletePart(__)
+
+//@ func (*metadataPartStorage).UploadPart$1
+//@ mode effects
+//@ trust nonnil metadatastore.MetadataStore.UploadPart
+//@ havoc deleteUnreferencedParts
+//@ effect[C08:upload-part-deletes-only-what-the-registry-released] every mbs.deleteUnreferencedParts(_, _, $ps)
+//@     needs before mbs.metadataStore.UploadPart(__) -> ($res, $e) where $e == nil && $res != nil && same($ps, $res.UnreferencedParts)
+
+//@ func (*metadataPartStorage).UploadPartCopy$1
+//@ mode effects
+//@ trust nonnil metadatastore.MetadataStore.UploadPart
+//@ havoc deleteUnreferencedParts
+//@ effect[C08:upload-part-copy-deletes-only-what-the-registry-released] every mbs.deleteUnreferencedParts(_, _, $ps)
+//@     needs before metadatastore.MetadataStore($m).UploadPart(__) -> ($res, $e) where $e == nil && $res != nil && same($ps, $res.UnreferencedParts)
+
+//@ func (*metadataPartStorage).CompleteMultipartUpload$1
+//@ mode effects
+//@ trust nonnil metadatastore.MetadataStore.CompleteMultipartUpload
+//@ havoc deleteUnreferencedParts
+//@ effect[C08:complete-deletes-only-what-the-registry-released] every mbs.deleteUnreferencedParts(_, _, $ps)
+//@     needs before mbs.metadataStore.CompleteMultipartUpload(__) -> ($res, $e) where $e == nil && $res != nil && same($ps, $res.UnreferencedParts)
+//@ effect[C08:complete-deletes-no-part-behind-the-registrys-back] never partstore.PartStore($s).DeletePart(__)
+
+//@ func (*metadataPartStorage).AbortMultipartUpload$1
+//@ mode effects
+//@ trust nonnil metadatastore.MetadataStore.AbortMultipartUpload
+//@ havoc deleteUnreferencedParts
+//@ effect[C08:abort-deletes-only-what-the-registry-released] every mbs.deleteUnreferencedParts(_, _, $ps)
+//@     needs before mbs.metadataStore.AbortMultipartUpload(__) -> ($res, $e) where $e == nil && $res != nil && same($ps, $res.UnreferencedParts)
+//@ effect[C08:abort-deletes-no-part-behind-the-registrys-back] never partstore.PartStore($s).DeletePart(__)
